@@ -71,7 +71,7 @@ def gen(rng, tier):
                         if sg and rng.random() < 0.3:
                             a, b = M >> 1, M - 1
                         yield f"{op}_vv {s}{cfg} {mode} {hx(a)} {hx(b)}", t
-                        for f in (op, f"{op}_euclid", f"checked_{op}", f"checked_{op}_euclid", f"wrapping_{op}", f"wrapping_{op}_euclid",
+                        for f in (op, f"{op}_euclid", f"strict_{op}", f"strict_{op}_euclid", f"checked_{op}", f"checked_{op}_euclid", f"wrapping_{op}", f"wrapping_{op}_euclid",
                                   f"overflowing_{op}", f"overflowing_{op}_euclid"):
                             yield f"{f} {s}{cfg} {hx(a)} {hx(b)}", t
                         if op == "div":
